@@ -8,6 +8,7 @@ through the steps in between).  `allPres` then gives `KS` for the whole evaluato
 -/
 import ZnVerif.Proofs.BalanceMutual
 import ZnVerif.Proofs.Handlers
+import ZnVerif.Proofs.LoaderPres
 set_option linter.unusedSectionVars false
 set_option linter.unusedSimpArgs false
 set_option linter.unusedVariables false
@@ -69,7 +70,7 @@ instance : Stable0 (KS (ν := ν)) where
     · rename_i h; subst h; simp at hx
     · exact hx
   stack s st cs := KS.of_heap_eq rfl
-  modules s m := KS.of_heap_eq rfl
+  exports s i md e _ := KS.of_heap_eq rfl
 
 theorem setElement_heap (name : String) (v : Addr) (s : VM ν) : (setElement name v s).2.heap = s.heap := by
   unfold setElement
@@ -205,15 +206,25 @@ instance : ScopePrims0 (KS (ν := ν)) where
   reduceLHS := ks_reduceLHS
   evalCtorDecl := ks_evalCtorDecl
 
+theorem beginBoundScope_heap (s : VM ν) : (beginBoundScope s).2.heap = s.heap := by
+  unfold Model.beginBoundScope
+  split
+  · rfl
+  · exact putScope_heap _ _ _
+
+instance : LoaderPrims (KS (ν := ν)) where
+  graph s g := KS.of_heap_eq rfl
+  pushModule s m _ := KS.of_heap_eq rfl
+  beginBoundScope := ⟨fun s => KS.of_heap_eq (beginBoundScope_heap s)⟩
+
+/-- a whole execution over a file table and registered libraries (modules included) -/
+theorem ks_runProgramWith (files : FileTable) (libs : LibTable) (fuel : Nat) (p : Program) (inputs : List (String × Cell ν)) :
+    Pres KS (runProgramWith (ν := ν) files libs fuel p inputs) :=
+  Pres.runProgramWith files libs fuel p inputs fun s => KS.of_heap_eq rfl
+
 /-- a whole execution -/
 theorem ks_runProgram (fuel : Nat) (p : Program) (inputs : List (String × Cell ν)) :
-    Pres KS (runProgram (ν := ν) fuel p inputs) := by
-  unfold Model.runProgram
-  have h1 : Pres KS (modifyVM fun s : VM ν =>
-      { s with modules := s.modules.push { name := "主模块", hasProgram := true }, csModuleID := 0 }) :=
-    Pres.modifyVM fun s => KS.of_heap_eq rfl
-  have h2 := (allPres (ν := ν) (R := KS) fuel).evalExecBlock
-  pres_tac
-  all_goals exact h2 _ _
+    Pres KS (runProgram (ν := ν) fuel p inputs) :=
+  ks_runProgramWith [] [] fuel p inputs
 
 end ZnVerif.Proofs.Balance
